@@ -25,14 +25,31 @@ type Message struct {
 }
 
 type MessageCache struct {
-	m []Message
-	l sync.Mutex
+	m      []Message
+	l      sync.Mutex
+	closed bool
 }
 
-func (m *MessageCache) Append(message Message) {
+// Append adds a message and reports whether it was taken: a cache that has
+// been closed by Close refuses further messages.
+func (m *MessageCache) Append(message Message) bool {
 	m.l.Lock()
 	defer m.l.Unlock()
+	if m.closed {
+		return false
+	}
 	m.m = append(m.m, message)
+	return true
+}
+
+// Close takes the remaining messages and refuses any further one.
+func (m *MessageCache) Close() (result []Message) {
+	m.l.Lock()
+	defer m.l.Unlock()
+	m.closed = true
+	result = m.m
+	m.m = nil
+	return
 }
 
 func (m *MessageCache) Take() (result []Message) {
